@@ -91,11 +91,15 @@ def run(ctx):
     records = []
     for i, (c, r) in enumerate(zip(cases, results)):
         records.append({"tid": i, "order": c["order"], "defaults": c["defaults"], "singles": r["singles"], "multi": r["multi"], "multidef": r["multidef"],
-                        "auto": r["auto"], "reparse": r["reparse"], "region": r["region"], "asLocale": r["asLocale"], "exc": r["exc"]})
+                        "auto": r["auto"], "reparse": r["reparse"], "region": r["region"], "asLocale": r["asLocale"], "exc": r["exc"], "tries": r["tries"], "bound": bool(r["probe_bound"])})
     tuples, gen = core.validate_traces(ctx, "T_C13", "SPECIFICATION TSpec\nPOSTCONDITION Consumed\nCHECK_DEADLOCK FALSE\n", records)
     for t in tuples["REJECT"]:
         _, tid, kind, verdict, exp = t[:5]
         c, r = cases[tid], results[tid]
+        if kind == "abs":
+            ctx.note_drift("Pipeline", {"string": c["s"], c.get("via", "languages"): c["langs"], "use_given_order": c["given"], "specified_order": c["order"],
+                                        "locales_tried": r["tries"]})
+            continue
         ctx.violation({"string": c["s"], c.get("via", "languages"): c["langs"], "use_given_order": c["given"], "order_tried": c["order"], "DEFAULT_LANGUAGES": c["defaults"],
                        "region": c["region"], "settings": c["settings"]}, verdict, expected=exp,
                       observed={k: r[k] for k in ("singles", "multi", "multidef", "auto", "reparse", "region", "asLocale", "exc")}, extra={"full_case": c})
